@@ -251,6 +251,10 @@ func (torrent *Torrent) MetadataComplete() error {
 	if chunks != int64(uint32(chunks)) || chunks != int64(int(chunks)) {
 		return errors.New("torrent too large")
 	}
+	pl := int64(info.PieceLength)
+	if int64(len(hashes)) != (length+pl-1)/pl {
+		return errors.New("pieces doesn't match length")
+	}
 	torrent.inFlight = make([]uint8, chunks)
 
 	torrent.PieceHashes = hashes
